@@ -11,7 +11,8 @@ PROP = {
                                    "S_compared_both_optimizer_settings", "S_skipped_unsupported", "S_skipped_out_of_fuel",
                                    "S_skipped_laziness", "S_excluded_redeclaration",
                                    "cases_model_optimizer_rewrote_and_variable_survives", "cases_model_optimizer_rewrote_to_variable_free",
-                                   "cases_where_hypotheses_of_optimize_sound_value_hold"]},
+                                   "cases_inside_hypotheses_of_C02_optimize_sound_cfg_side_ok",
+                                   "cases_that_also_met_the_previous_side_condition_strict_eq_nonstrict"]},
     "trusted_base": [KERNEL, TABLES, HARNESS, NOAX,
                      "modelled, not verified against the Go source: coq/Sem/Opt.v (optimizer.Optimize, the Optimize traversals of parser2.go, const-let propagation of parseLet) is hand-written after funcGen/optimizer.go and parser2.go and tied to the code by the correspondence run (Gen.run on the model-optimized AST = implementation with the optimizer) and by the regenerated flags (C02_flags_match)",
                      "the handler flags of cfgflags (toBool, list, map, closure, method handlers present) are not read from the code; value.New() installs all of them",
@@ -19,15 +20,15 @@ PROP = {
     "assumptions": ["floats: only exactly representable results are compared; a regrouped float chain that is inexact is `unsupported` in the model and counted as skipped",
                     "programs that redeclare a name inside one function body, random/randomConst are excluded as in C01",
                     "value instance only (the bool and float instances of the generic generator are C19's business)"],
-    "residue": "",
+    "residue": "the theorem asks for first-order constants in the SOURCE program (side_ok): programs with host-registered closure constants are outside; built-ins outside coq/Sem/Lib.v are left alone by the optimizer model (the run skips those trees); the conclusion is up to the value relation on results that contain closures (equality on first-order outcomes)",
     "correspondence_only": ["exact per-evaluation call counts of impure functions with and without the optimizer, and no impure call during Generate (Go-side oracle with counters; the theorems prove that the folding rules never run a call of a function not flagged pure)",
                             "AST equality between the model's optimizer and the real one is not compared node by node; the model is tied through the outcomes of the optimized program",
                             "built-ins outside the pool of coq/Sem/Lib.v: the optimizer model leaves them alone (counted as not followable)"],
 }
 
 MANIFEST = {
-    "text": "Coq model of the constant-folding optimizer (Sem/Opt.v: every rule of optimizer.Optimize, the child-first traversal with its omissions, const-let propagation) with theorems for all programs: every optimized form simulates the original (optimized_form_sound), the strict optimizer is sound for any flags satisfying decidable obligations and for the flags of value.New() (optimize_sound_strict, optimize_sound_value_strict), the implementation's optimizer on every program on which it agrees with the strict one (optimize_sound_value), folding never runs a function that is not flagged pure, refutations for the flags of the pinned commit (= & | * commutative, method rule without closure-field check); table obligation C02_flags_match: the flags regenerated from the current value.New() equal the flags the theorems are about. Correspondence on every run: outcome with optimizer = outcome without = reference semantics on the generator's own tree; Gen.run on the model-optimized AST = implementation with the optimizer; counters of an impure host function: none during Generate, equal per evaluation with and without optimizer. Corpus: every operator x every pair of constant kinds x the three chain shapes.",
+    "text": "Coq model of the constant-folding optimizer (Sem/Opt.v: every rule of optimizer.Optimize, the child-first traversal with its omissions, const-let propagation) with theorems for all programs: every optimized form simulates the original (optimized_form_sound), the optimizer is sound for ALL programs with first-order source constants and for every configuration passing the decidable test cfg_ok - the flags of value.New(), the flags regenerated from the tree, the strict variant - with the outcome relation as conclusion and plain equality on first-order outcomes (C02_optimize_sound_cfg, C02_optimize_sound_all, C02_optimize_sound_generated, C02_optimize_sound_first_order_exact); a constant computed at Generate time may be a closure: C01's exec_sim relates it to the reference value and the value relation absorbs that relation (generate_time_*_related, computed_constant_stands_for_value), folding never runs a function that is not flagged pure, refutations for the flags of the pinned commit (= & | * commutative, method rule without closure-field check); table obligation C02_flags_match: the flags regenerated from the current value.New() equal the flags the theorems are about. Correspondence on every run: outcome with optimizer = outcome without = reference semantics on the generator's own tree; Gen.run on the model-optimized AST = implementation with the optimizer; counters of an impure host function: none during Generate, equal per evaluation with and without optimizer. Corpus: every operator x every pair of constant kinds x the three chain shapes.",
     "design_ref": "DESIGN.md section 6 C02",
-    "note": "Call counts of impure functions are established on the implementation by the run, not by a theorem (no effect log in the model). The soundness theorem for the non-strict optimizer needs the decidable per-program test `optimize value_flags a = optimize (strict value_flags) a`; the run counts the dumped ASTs on which it holds. Trusted: Coq kernel + VM, table hooks, the Go harness.",
+    "note": "Call counts of impure functions are established on the implementation by the run, not by a theorem (no effect log in the model). The soundness theorem needs no per-program test any more; the run counts the dumped ASTs inside its hypothesis (side_ok) and, for comparison, those that met the side condition of the previous version (strict = non-strict optimizer). Trusted: Coq kernel + VM, table hooks, the Go harness.",
     "technique": "Coq model + proofs over regenerated flags + vm_compute three-way correspondence run with effect counters",
 }
